@@ -5,6 +5,8 @@
     single_timer:      Connection.reader uses one time.NewTimer(reconnectTimeout)
                        created before its loop and never Reset, instead of a
                        time.After per iteration.
+    pong_prefix:       the reader treats every payload of 12 bytes OR MORE that
+                       starts with the tcp.pong magic as a pong (round 4).
     chan_per_session:  c.resp is made by setupEncryptedConnection (every
                        handshake) instead of once by NewConnection, while the
                        application keeps the channel it got from Responses(). *)
@@ -37,3 +39,15 @@ Theorem chan_per_session_refuted :
   app_received (conn_run false false 0 two_sessions) = [pkt 1; pkt 2] /\
   app_received (conn_run false true 0 two_sessions) = [pkt 1].
 Proof. vm_compute. split; reflexivity. Qed.
+
+(* "len >= 12" instead of "len == 12" in the pong test *)
+Definition is_control_ge (p : list N) : bool :=
+  ((magic_type p =? magic_tcp_pong) && (12 <=? len p)) || (magic_type p =? magic_tcp_auth_nonce).
+
+Definition pong_like : list N := [3; 251; 105; 220; 28; 35; 42; 49; 56; 63; 70; 77; 84].   (* 13 bytes *)
+
+Theorem pong_prefix_refuted :
+  magic_type pong_like = magic_tcp_pong /\ len pong_like = 13 /\
+  reader_run false 0 [APacket 100 pong_like] = ([pong_like], SRunning) /\
+  is_control_ge pong_like = true.
+Proof. vm_compute. repeat split. Qed.
